@@ -235,7 +235,12 @@ where
                     let end = (start + chunk).min(n);
                     for i in start..end {
                         cur[w].store(i + 1, Ordering::Relaxed);
-                        f(i, &mut local);
+                        // a panic that escapes a property's own guards is a defect of the harness, never a verdict
+                        if std::panic::catch_unwind(std::panic::AssertUnwindSafe(|| f(i, &mut local))).is_err() {
+                            let p = LAST_PANIC.with(|p| p.borrow_mut().take());
+                            eprintln!("HARNESS-ERROR property={} unguarded panic in case {i}: {:?}", cfg.prop, p.map(|p| format!("{}:{}: {}", p.file, p.line, p.msg)));
+                            std::process::exit(2);
+                        }
                         completed.fetch_add(1, Ordering::Relaxed);
                     }
                 }
@@ -549,6 +554,9 @@ pub fn install_panic_hook() {
         } else {
             "<non-string panic>".to_string()
         };
+        if std::env::var_os("VERIF_DEBUG").is_some() {
+            eprintln!("panic at {file}:{line}: {msg}");
+        }
         LAST_PANIC.with(|p| *p.borrow_mut() = Some(PanicInfo { file, line, msg }));
     }));
 }
